@@ -132,6 +132,20 @@ def _arg(env, v, world=None, node_id=None, label="", self_obj=None):
             return self_obj
         if "$selfprop" in v:
             return getattr(self_obj, v["$selfprop"])
+        if "$shape" in v:
+            import autoarray as aa
+
+            sh = v["$shape"]
+            if sh[0] == "Circle":
+                return aa.Circle(x=sh[1], y=sh[2], radius=sh[3])
+            return aa.Square(x=sh[1], y=sh[2], side=sh[3]) if hasattr(aa, "Square") and sh[0] == "Square" else aa.Circle(x=sh[1], y=sh[2], radius=sh[3])
+        if "$ints" in v:
+            return np.array(v["$ints"], dtype=int)
+        if "$abs" in v:
+            return abs(_arg(env, v["$abs"], world, node_id, label, self_obj))
+        if "$const_like" in v:
+            base = _arg(env, v["$const_like"][0], world, node_id, label, self_obj)
+            return (base * 0.0) + float(v["$const_like"][1])
         if "$over_dataset" in v:
             import autoarray as aa
 
@@ -205,7 +219,7 @@ def perform(env, target_id, q, world=None, node_id=None):
         fn = aa
         for part in q["name"].split("."):
             fn = getattr(fn, part)
-        kw = {k: _arg(env, v, world, node_id, k) for k, v in q.get("kw", {}).items()}
+        kw = {k: _arg(env, v, world, node_id, k, obj) for k, v in q.get("kw", {}).items()}
         return fn(**kw)
     raise ValueError(f"unknown q type {t}")
 
@@ -299,11 +313,50 @@ def curated_calls(obj, rng, nodes_by_type):
         a = pick("Array2D")
         pass
     if tn == "BorderRelocator":
-        g = pick("Grid2D")
+        g = pick("Grid2D", "Grid2DIrregular")
         if g:
             out.append({"t": "call", "name": "relocated_grid_from", "kw": {"grid": {"$node": g}}})
+        g2 = pick("Grid2DIrregular")
+        if g and g2:
+            out.append({"t": "call", "name": "relocated_mesh_grid_from", "kw": {"grid": {"$node": g}, "mesh_grid": {"$node": g2}}})
+    if tn == "Convolver":
+        a = pick("Array2D")
+        if a:
+            out.append({"t": "call", "name": "convolve_image_no_blurring", "kw": {"image": {"$node": a}}})
+        npix = None
+        try:
+            npix = int(obj.mask.pixels_in_mask)
+        except Exception:  # noqa: BLE001
+            npix = None
+        if npix:
+            cols = rng.randrange(1, 4)
+            out.append({"t": "call", "name": "convolve_mapping_matrix", "kw": {"mapping_matrix": {"$arr": [prng.fhex(rng.uniform(0, 1)) for _ in range(npix * cols)], "shape": [npix, cols]}}})
+    if tn in ("Mesh2DRectangular", "Mesh2DDelaunay"):
+        out.append({"t": "call", "name": "interpolation_grid_from", "kw": {"shape_native": _T(rng.randrange(2, 6), rng.randrange(2, 6))}})
+    if tn in ("Array2D",):
+        # seeded noise helpers (I5): the result must not depend on the prior state of the global generator
+        seed = rng.randrange(0, 1000)
+        out.append({"t": "fn", "name": "preprocess.data_with_gaussian_noise_added", "kw": {"data": {"$self": True}, "sigma": rng.choice([0.1, 1.0]), "seed": seed}})
+        out.append({"t": "fn", "name": "preprocess.gaussian_noise_via_shape_and_sigma_from", "kw": {"shape": _T(rng.randrange(1, 6)), "sigma": 1.0, "seed": seed}})
+        e = pick("Array2D")
+        if e:
+            out.append({"t": "fn", "name": "preprocess.data_eps_with_poisson_noise_added", "kw": {"data_eps": {"$abs": {"$self": True}}, "exposure_time_map": {"$const_like": [{"$self": True}, 300.0]}, "seed": seed}})
+    if tn in ("CoordinateArrayTriangles", "ArrayTriangles"):
+        out.append({"t": "call", "name": "containing_indices", "kw": {"shape": {"$shape": ["Circle", rng.uniform(-1, 1), rng.uniform(-1, 1), rng.choice([0.3, 1.0, 2.5])]}}})
+    if tn == "Preloads":
+        fits = nodes_by_type.get("FitStub", [])
+        if len(fits) >= 2:
+            f0, f1 = rng.sample(fits, 2)
+            for nm in ("set_w_tilde_imaging", "set_relocated_grid", "set_mapper_list", "set_operated_mapping_matrix_with_preloads", "set_linear_func_inversion_dicts",
+                       "set_curvature_matrix", "set_regularization_matrix_and_term"):
+                out.append({"t": "call", "name": nm, "kw": {"fit_0": {"$node": f0}, "fit_1": {"$node": f1}}})
     if tn in ("MapperRectangular", "MapperDelaunay"):
         out.append({"t": "call", "name": "pixel_signals_from", "kw": {"signal_scale": rng.choice([0.5, 1.0, 2.0])}})
+        a = pick("Array2D")
+        if a:
+            out.append({"t": "call", "name": "mapped_to_source_from", "kw": {"array": {"$node": a}}})
+        out.append({"t": "call", "name": "data_pixel_area_for_pix_from", "kw": {}})
+        out.append({"t": "call", "name": "data_weight_total_for_pix_from", "kw": {}})
         n = getattr(obj, "params", None)
         if isinstance(n, int) and n > 0:
             vals = [prng.fhex(rng.uniform(0.0, 2.0)) for _ in range(n)]
@@ -430,4 +483,14 @@ def derivations(obj, rng, nodes_by_type):
         a = pick("Array2D")
         if a:
             out.append({"t": "call", "name": "via_image_from", "kw": {"image": {"$node": a}}})
+    if tn in ("CoordinateArrayTriangles", "ArrayTriangles"):
+        out.append({"t": "call", "name": "up_sample", "kw": {}})
+        out.append({"t": "call", "name": "neighborhood", "kw": {}})
+        n = 0
+        try:
+            n = len(obj.triangles)
+        except Exception:  # noqa: BLE001
+            n = 0
+        if n >= 1:
+            out.append({"t": "call", "name": "for_indexes", "kw": {"indexes": {"$ints": sorted(rng.sample(range(n), rng.randrange(1, min(n, 4) + 1)))}}})
     return out
